@@ -13,10 +13,10 @@ Import ListNotations.
 Open Scope N_scope.
 
 Inductive tok :=
-| TChar (c: N)        (* any character of default text (names, numbers, operators, blanks, newlines) *)
-| TStr (s: str)       (* a string literal and its value *)
-| TBytes (s: str)     (* a b-prefixed literal and its value *)
-| TComment.
+| TkChar (c: N)        (* any character of default text (names, numbers, operators, blanks, newlines) *)
+| TkStr (s: str)       (* a string literal and its value *)
+| TkBytes (s: str)     (* a b-prefixed literal and its value *)
+| TkComment.
 
 Inductive lst :=
 | LDef (prev_ident: bool)   (* default text; was the previous character an identifier character? *)
@@ -33,10 +33,10 @@ Fixpoint tok_line (s: lst) (acc: list tok) (l: list N) : option (list tok) :=
   | [] => match s with LDef _ | LCom => Some (rev acc) | _ => None end
   | c :: r =>
       match s with
-      | LCom => if c =? 10 then tok_line (LDef false) (TChar 10 :: acc) r else tok_line LCom acc r
+      | LCom => if c =? 10 then tok_line (LDef false) (TkChar 10 :: acc) r else tok_line LCom acc r
       | LStr b q s' out =>
           match step false b q s' out c with
-          | AStop o => tok_line (LDef false) ((if b then TBytes (rev o) else TStr (rev o)) :: acc) r
+          | AStop o => tok_line (LDef false) ((if b then TkBytes (rev o) else TkStr (rev o)) :: acc) r
           | AFail => None
           | ACont s'' o => tok_line (LStr b q s'' o) acc r
           end
@@ -45,10 +45,10 @@ Fixpoint tok_line (s: lst) (acc: list tok) (l: list N) : option (list tok) :=
           if is_quote c then
             if prev || starts_two c r then None
             else tok_line (LStr false c Norm []) acc r
-          else if c =? 35 then tok_line LCom (TComment :: acc) r
+          else if c =? 35 then tok_line LCom (TkComment :: acc) r
           else if c =? BS then None
           else if (c =? 98) && negb prev && next_is_quote r then tok_line LB acc r
-          else tok_line (LDef (is_ident_char c)) (TChar c :: acc) r
+          else tok_line (LDef (is_ident_char c)) (TkChar c :: acc) r
       end
   end.
 
@@ -57,7 +57,7 @@ Definition tokenize (l: list N) : option (list tok) := tok_line (LDef false) [] 
 (* the literal values of a text, in order (what the tie compares) *)
 Inductive lval := VS (s: str) | VB (s: str).
 Definition literals (l: list N) : option (list lval) :=
-  option_map (fun ts => flat_map (fun t => match t with TStr s => [VS s] | TBytes s => [VB s] | _ => [] end) ts)
+  option_map (fun ts => flat_map (fun t => match t with TkStr s => [VS s] | TkBytes s => [VB s] | _ => [] end) ts)
              (tokenize l).
 
 Definition lval_eqb (a b: lval) : bool :=
